@@ -241,6 +241,9 @@ func genC10Cases(tier string, rng *Rng) {
 	for _, c := range genC10URL(tier, NewRng(rng.U64())) {
 		runOp(c)
 	}
+	for i := 0; i < 3; i++ {
+		runOp([]string{"c10closeidle"})
+	}
 	seq := func(max, wait int, qs []c10Req) {
 		a := []string{"c10seq", itoa(max), itoa(wait), itoa(len(qs))}
 		for _, q := range qs {
